@@ -333,6 +333,18 @@ def main(ctx, prop):
                                                     files=dict(device=st_['device'], netspoc=st_['netspoc']), stdout=st_['stdout'],
                                                     oracle='step_scan of Cisco.%sAclCheck' % ('Ios' if st_['family'] == 'IOS' else 'Asa')),
                                         finding=st_['finding'], key='corestep'))
+        if prop in ('C01', 'C02', 'C14'):
+            # route commands of one VRF against Cisco/Routes.v (exact), for both families
+            from vlib import routecheck
+            nr, rbad = routecheck.check(ctx, 60 if q == 0 else 1500)
+            extra['route_cases'] = nr
+            for b in rbad:
+                if b.get('impl_diverges'):
+                    failing.append(dict(what='%s routes: the printed route commands are refused by the routing table or do not end in the target routes' % b['family'],
+                                        replay=dict(property=prop, model=b['family'], command='drc -q device code/router',
+                                                    files=dict(device=b['device'], netspoc=b['netspoc']), stdout=b.get('stdout')), finding=None, key='routes'))
+                else:
+                    breaks.append(dict(correspondence='Gallina route model (Cisco/Routes.v diff_croutes) vs cisco.diffRoutes', case=b))
         if prop == 'C14':
             # whole ASA configurations with object-groups: order of inserts and deletes per ACL, group-aware search on a broken order
             from vlib import c14groups
